@@ -486,7 +486,7 @@ def run(ctx):
 
     models = [("spheres14", spheres_model(14)), ("limits-pgs-sparse", limits_model(12, "mjSOL_PGS", "mjJAC_SPARSE")),
               ("limits-pgs-dense", limits_model(9, "mjSOL_PGS", "mjJAC_DENSE"))]
-    nclu, ngen = (12, 14) if thorough else (1, 1)
+    nclu, ngen = (6, 6) if thorough else (1, 1)
     forced = [("mjSOL_PGS", "mjJAC_SPARSE"), ("mjSOL_PGS", "mjJAC_DENSE"), ("mjSOL_CG", "mjJAC_SPARSE")]
     for i in range(nclu):
         so, ja = forced[i] if i < len(forced) else (None, None)   # the dual (mj_makeY / mj_makeAR) paths are always covered
@@ -542,9 +542,9 @@ def run(ctx):
     if thorough:
         asan = ctx.harness("harness/c/c20_exhaust.c", "c20_exhaust", variant="asan", deps=["harness/mjbuild.h"])
         if asan:
-            sa = Sweeper(ctx, asan, {"C20_NOFENCE": "1", "ASAN_OPTIONS": "detect_leaks=0:abort_on_error=0:allocator_may_return_null=1",
+            sa = Sweeper(ctx, asan, {"C20_NOFENCE": "1", "ASAN_OPTIONS": "detect_leaks=0:abort_on_error=0:allocator_may_return_null=1:detect_odr_violation=0",
                                      "UBSAN_OPTIONS": "print_stacktrace=0"}, 8)
-            for name, lines in models[:8]:
+            for name, lines in models[:5]:
                 nsizes[name + "[asan]"] = sweep_model(ctx, sa, name + "[asan]", lines, 2, False, rng, fails, traces, hist, max_rounds=12)
             sw.nruns += sa.nruns
     tm["sweeps"] = round(time.time() - t0, 1)
@@ -591,15 +591,18 @@ def run(ctx):
             ctx.disagreements += [dict(b, stream="allocator trace") for b in bad[:20]]
 
     def directed(c):
-        # a proof/tie obligation broke and nothing failed so far: sweep dense-overlap models every 8 bytes
-        fl, tr, hi = [], [], {}
+        # a proof/tie obligation broke and nothing failed so far: every 8 bytes from 0 to need, full boundary refinement
+        # and wide neighbourhood scans on the models that reach every allocation site
         s2 = Sweeper(c, impl, {}, 8)
-        for n in (14, 20, 9):
-            sweep_model(c, s2, "spheres%d" % n, spheres_model(n), 2, True, c.rng, fl, tr, hi)
+        cand = [("limits-pgs-sparse", limits_model(12, "mjSOL_PGS", "mjJAC_SPARSE")), ("limits-pgs-dense", limits_model(9, "mjSOL_PGS", "mjJAC_DENSE")),
+                ("limits-cg-sparse", limits_model(16, "mjSOL_CG", "mjJAC_SPARSE")), ("spheres14", spheres_model(14)), ("spheres9", spheres_model(9))]
+        for nm, ls in cand:
+            fl, tr, hi = [], [], {}
+            sweep_model(c, s2, nm, ls, 2, True, c.rng, fl, tr, hi)
             if fl:
                 f = fl[0]
-                return {"key": f["key"], "what": f["what"], "replay": {"model": f["model"], "narena": f["narena"],
-                        "description": spheres_model(n), "nsteps": 2}}
+                return {"key": f["key"], "what": f["what"], "replay": {"model": f["model"], "narena": f["narena"], "description": ls, "nsteps": 2,
+                        "replay": "printf 'model m\\n<description lines>\\nend\\nsweep 2 0 %d\\n' | <c20_exhaust harness>" % f["narena"]}}
         return None
     ctx.directed_search = directed
     if thorough:
